@@ -34,6 +34,11 @@ Observe(c) == /\ running /\ (ph[c] = "idle" \/ ("kick_in_tx" \in Dev /\ ph[c] = 
 Leave(c) == /\ running /\ ph[c] = "idle" /\ ph' = [ph EXCEPT ![c] = "left"]
             /\ drain' = IF c \in Clients THEN Append(drain, -1) ELSE drain
             /\ UNCHANGED <<adminOnly, total, timer, running, sigint, capt, counted, bcast, atSig, cut>>
+\* A CancelRequest connection is a short-lived non-admin client task: it announces itself (+1), forwards the
+\* request and leaves (-1).  Deviation cancel_not_counted: only the -1 is sent.
+CancelConn == /\ running /\ Len(drain) < 2 /\ total > -2 /\ total < 4
+              /\ drain' = IF "cancel_not_counted" \in Dev THEN Append(drain, -1) ELSE Append(Append(drain, 1), -1)
+              /\ UNCHANGED <<adminOnly, total, timer, running, sigint, ph, capt, counted, bcast, atSig, cut>>
 \* main loop arms
 Sigint == /\ running /\ ~sigint /\ sigint' = TRUE
           /\ (AllowBacklog \/ (drain = <<>> /\ \A c \in Clients : ph[c] # "starting"))
@@ -49,7 +54,7 @@ TimerArm == /\ running /\ timer = "armed" /\ timer' = "fired" /\ running' = FALS
             /\ UNCHANGED <<adminOnly, total, drain, sigint, ph, capt, counted, bcast, atSig, cut>>
 Sigterm == /\ running /\ running' = FALSE /\ UNCHANGED <<adminOnly, total, drain, timer, sigint, ph, capt, counted, bcast, atSig, cut>>
 Next == (\E c \in All : Accept(c) \/ Startup(c) \/ BeginTx(c) \/ EndTx(c) \/ Observe(c) \/ Leave(c))
-        \/ Sigint \/ DrainArm \/ TimerArm
+        \/ Sigint \/ DrainArm \/ TimerArm \/ CancelConn
 Spec == Init /\ [][Next]_vars /\ WF_vars(DrainArm) /\ \A c \in All : SF_vars(Observe(c)) /\ WF_vars(EndTx(c)) /\ WF_vars(Startup(c))
 \* ---- properties
 NoLoginAfterSigint == \A c \in Clients : (ph[c] = "idle" /\ capt[c]) => FALSE      \* a client accepted in admin-only mode never gets in
